@@ -144,7 +144,7 @@ def gen_value(r, s, N):
     if grid == "":
         if rows * cols == 1:
             return rnum(r)
-        return [[rnum(r) for _ in range(cols)] for _ in range(rows)]
+        return {"as": "np", "v": [[rnum(r) for _ in range(cols)] for _ in range(rows)]}
     ncol = N + (1 if s.get("include_last") else 0)
     if r.random() < 0.2 and rows == 1:
         return rnum(r)
@@ -317,6 +317,7 @@ def gen_base(r, cfg):
         else:
             decl("variable", grid="control", include_last=True)
     method = gen_method(r, cfg, N=N)
+    cfg = dict(cfg, _cls_hint=method["cls"])
     if cfg.get("dae", True) and method["cls"] == "DirectCollocation" and r.random() < 0.25:
         decl("algebraic")
 
@@ -417,8 +418,12 @@ def gen_constraints(r, sp, cfg, n, first=False):
                 d["include_first"] = False
             if r.random() < 0.3:
                 d["include_last"] = False
-            if k in ("pathx",) and r.random() < 0.25:
-                d["grid"] = pick(r, ["integrator", "control"])
+            dc = (sp.method or {}).get("cls", cfg.get("_cls_hint")) == "DirectCollocation"
+            if k in ("pathx",) and r.random() < (0.5 if dc else 0.3):
+                d["grid"] = pick(r, ["integrator", "control", "integrator_roots"] + (["integrator_roots"] * 2 if dc else []))
+                if d["grid"] == "integrator_roots":
+                    d.pop("include_first", None)
+                    d.pop("include_last", None)
         if cfg.get("scales", True) and r.random() < 0.15:
             d["scale"] = pick(r, [2, 10, 0.5])
         out.append(d)
